@@ -262,6 +262,12 @@ pub fn oracle_c02(scn: &E2Scn, d: &D2, stats: &mut Stats) -> Vec<Violation> {
         }
         t
     };
+    // an urgent event is not filtered
+    for (id, calls) in &d.filter {
+        if prio_of_id(d, *id) == Some(3) && !calls.is_empty() {
+            vs.push(Violation::new("urgent-event-was-filtered", "", format!("urgent event {id} was passed to the filter at t={}", calls[0].0)));
+        }
+    }
     let mut prev_batch_seq = 0u32;
     for (n, (dt, dseq, ids)) in d.batches.iter().enumerate() {
         if *dseq > stop_seq {
